@@ -33,11 +33,20 @@ pub struct Stats {
     pub counters: BTreeMap<String, u64>,
     pub violations: Vec<Violation>,
     pub violation_count: u64,
+    /// violations whose signature is not a recorded known finding
+    pub unknown_violation_count: u64,
     pub samples: Vec<Value>,
     pub diverged: u64,
 }
 
 pub const MAX_KEPT_VIOLATIONS: usize = 40;
+/// (property, signature) of the recorded known findings (status "known"), set once by main.
+pub static KNOWN_SIGNATURES: std::sync::OnceLock<Vec<(String, String)>> = std::sync::OnceLock::new();
+/// A worker that has met this many violations (known findings not counted) stops, and makes the
+/// others stop at their next work item: the verdict is settled, and a badly broken tree can make
+/// every single case a violation.
+pub const STOP_AFTER_VIOLATIONS: u64 = 300;
+pub static STOP_EXPLORATION: std::sync::atomic::AtomicBool = std::sync::atomic::AtomicBool::new(false);
 pub const SET_CAP: usize = 3_000_000;
 pub const MAX_SAMPLES: usize = 6;
 
@@ -72,6 +81,9 @@ impl Stats {
     }
     pub fn violation(&mut self, v: Violation) {
         self.violation_count += 1;
+        if !KNOWN_SIGNATURES.get().map(|k| k.iter().any(|(p, s)| *p == v.property && *s == v.signature)).unwrap_or(false) {
+            self.unknown_violation_count += 1;
+        }
         // keep at most a few per signature so that one noisy kind cannot hide another
         let same = self
             .violations
@@ -107,6 +119,7 @@ impl Stats {
             }
         }
         self.violation_count += other.violation_count;
+        self.unknown_violation_count += other.unknown_violation_count;
         for v in other.violations {
             let same = self
                 .violations
@@ -241,6 +254,10 @@ impl Part {
             known_lines.push(json!({"property": k.property, "signature": sig, "what": k.description, "cases_kept": n}));
         }
         let wall = self.started.elapsed().as_secs_f64();
+        let mut caps_hit = self.caps_hit.clone();
+        if STOP_EXPLORATION.load(Ordering::SeqCst) {
+            caps_hit.push(format!("exploration stopped early: a worker met {} violations", STOP_AFTER_VIOLATIONS));
+        }
         let v = json!({
             "property_id": self.property,
             "tier": self.tier,
@@ -259,8 +276,8 @@ impl Part {
             "rule": self.rule,
             "bounds": self.bounds,
             "assumptions": self.assumptions,
-            "exhaustive": self.exhaustive && self.caps_hit.is_empty(),
-            "caps_hit": self.caps_hit,
+            "exhaustive": self.exhaustive && caps_hit.is_empty(),
+            "caps_hit": caps_hit,
             "machinery_errors": self.machinery_errors,
             "violations_total": self.stats.violation_count,
             "violations_new": new_violations,
